@@ -278,6 +278,29 @@ func runEngineSelfTests() {
 			expect("delete on a map read from a Labels field "+name, hit, want)
 		}
 	}
+	// bool flags in SSA form, slice literals
+	for name, want := range map[string]bool{"FlagConst": true, "FlagComputed": false} {
+		if f := fn(name); f != nil {
+			got := false
+			for _, b := range f.Blocks {
+				if iff, ok := lastInstr(b).(*ssa.If); ok {
+					if tr, fa, ok := flagEdges(iff.Cond); ok && len(tr) == 1 && len(fa) == 1 {
+						got = true
+					}
+				}
+			}
+			expect("flagEdges: phi over the constants true / false "+name, got, want)
+		}
+	}
+	if f := fn("LitPair"); f != nil {
+		rets := returns(f)
+		if len(rets) == 1 && len(rets[0].Results) == 3 {
+			expect("sameLiteral: equal slice literals", sameLiteral(rets[0].Results[0], rets[0].Results[1]), true)
+			expect("sameLiteral: literals differing in one element", sameLiteral(rets[0].Results[0], rets[0].Results[2]), false)
+		} else {
+			expect("sameLiteral: test function shape", false, true)
+		}
+	}
 	// one-sided positional comparison
 	for name, want := range map[string]bool{"GoodLexLess": false, "GoodLexLessNeq": false, "BadLexLess": true} {
 		if f := fn(name); f != nil {
